@@ -89,6 +89,9 @@ def parseOp (impl : String) : List String → Option (Op Int)
   | ["clone", d, r] => do pure (.clone (← reg? d) (← reg? r))
   | "intersect" :: d :: rs => do pure (.intersect (← reg? d) (← rs.mapM reg?))
   | "range" :: d :: xs => do pure (.range (← reg? d) (← ints? xs))
+  -- `keyst <value type> d …`: `Keys` at another value type of the argument map (Go side only; same model operation)
+  | ["keyst", _, d, "nil"] => do pure (.keys (← reg? d) none)
+  | "keyst" :: _ :: d :: ps => do pure (.keys (← reg? d) (some (mkMap (← ps.mapM pair?))))
   | ["keys", d, "nil"] => do pure (.keys (← reg? d) none)
   | "keys" :: d :: ps => do pure (.keys (← reg? d) (some (mkMap (← ps.mapM pair?))))
   | ["values", d, "nil"] => do pure (.values (← reg? d) none)
